@@ -353,6 +353,8 @@ def gen_world(
         "features": sorted(feats),
         "zid_mode": zid_mode,
         "dirent": rng.choice(["sorted", "reversed", "shuffled"]),
+        # where the notes directory lives (hidden components, a space, dots in its own path)
+        "home": rng.choice(["org"] * 5 + [".local/share/zorg", "my notes/org", "org.d/v1.2"]),
     }
 
 
